@@ -43,12 +43,17 @@ type H05 struct {
 	track    map[*ssa.Alloc]int // 1 trackable, 2 composite (also written field by field), 3 escapes
 	frames   map[h05fkey]*H05Frame
 	avoid    map[*ssa.BasicBlock]bool
-	iterSite map[ssa.Instruction]*Loop // first instruction of a loop header standing for "the back edge is taken"
+	iterSite map[ssa.Instruction]*Loop // first instruction of a loop body standing for "the loop goes on to the next element"
 	terms    map[h05tkey]*H05Term
 	loops    map[*ssa.Function][]*Loop
 	nonNil   map[*ssa.Function]int // 0 unknown, 1 yes, 2 no, 3 in progress
 	estMemo  map[string]H05Verdict
 	frameSeq int
+	objs     map[h05objKey]*h05obj
+	phiAt    map[*H05Frame]ssa.Instruction // set while TermAt runs: the point of use, per activation
+	iterTest map[ssa.Instruction]*ssa.BasicBlock
+	phiAcc   H05Accept
+	phiAccF  *H05Frame
 }
 
 type h05tkey struct {
@@ -564,6 +569,39 @@ func (e *H05) Term(v ssa.Value, f *H05Frame) *H05Term {
 	return t
 }
 
+// TermAt is the term of v (in frame f) as seen when instruction at (of frame atF) executes: a merge of
+// several values (a variable assigned on some paths only, `var duty core.Duty` set inside a branch) is
+// the one value it can hold there once the merge edges from which `at` cannot be reached are discarded
+// (path-sensitively: an edge taken with a non-nil error never reaches code guarded by `err == nil`).
+func (e *H05) TermAt(v ssa.Value, f *H05Frame, at ssa.Instruction, atF *H05Frame) *H05Term {
+	return e.TermAtAcc(v, f, at, atF, nil)
+}
+
+// TermAtAcc is TermAt where only the arrivals at `at` accepted by acc count (a return that reports success).
+func (e *H05) TermAtAcc(v ssa.Value, f *H05Frame, at ssa.Instruction, atF *H05Frame, acc H05Accept) *H05Term {
+	t := e.Term(v, f)
+	if !t.Untraced() || at == nil || e.phiAt != nil {
+		return t
+	}
+	saved := e.terms
+	e.terms = map[h05tkey]*H05Term{}
+	e.phiAt = map[*H05Frame]ssa.Instruction{}
+	e.phiAcc, e.phiAccF = acc, atF
+	for g, in := atF, at; g != nil; g = g.Parent {
+		e.phiAt[g] = in
+		ci, ok := g.Call.(ssa.Instruction)
+		if !ok {
+			break
+		}
+		in = ci
+	}
+	defer func() { e.terms, e.phiAt, e.phiAcc, e.phiAccF = saved, nil, nil, nil }()
+	if t2 := e.Term(v, f); !t2.Untraced() {
+		return t2
+	}
+	return t
+}
+
 func h05TypeStr(t types.Type) string { return Short(types.TypeString(t, nil)) }
 
 func (e *H05) term(v ssa.Value, f *H05Frame) *H05Term {
@@ -580,9 +618,14 @@ func (e *H05) term(v ssa.Value, f *H05Frame) *H05Term {
 		return H05T("toarrayptr", "", e.Term(x.X, f))
 	case *ssa.Phi:
 		var first *H05Term
-		for _, ed := range x.Edges {
+		at := e.phiAt[f]
+		for i, ed := range x.Edges {
 			if ed == ssa.Value(x) {
 				continue
+			}
+			if at != nil && at.Parent() == x.Parent() && i < len(x.Block().Preds) &&
+				!e.ReachFromEdge(x.Block().Preds[i], x.Block(), at, nil, e.accFor(f)) {
+				continue // this edge never leads to the point of use
 			}
 			t := e.Term(ed, f)
 			if first == nil {
@@ -753,6 +796,9 @@ func (e *H05) loadTerm(ld *ssa.UnOp, f *H05Frame) *H05Term {
 		if t := e.literalTerm(a, ld, f); t != nil {
 			return t
 		}
+		if t := e.feasibleStore(a, ld, f); t != nil {
+			return t
+		}
 		return e.opaque(ld, f)
 	case *ssa.FieldAddr:
 		if al, ok := a.X.(*ssa.Alloc); ok {
@@ -764,9 +810,25 @@ func (e *H05) loadTerm(ld *ssa.UnOp, f *H05Frame) *H05Term {
 			if t := e.fieldOfLocal(al, FieldKey(a.X.Type(), a.Field), a.Field, ld.Type(), ld, f); t != nil {
 				return t
 			}
+			// a parameter object: built here, handed to helpers / methods by address
+			if t := e.objField(al, f, a.Field, ld, f); t != nil {
+				return t
+			}
 			return e.opaque(ld, f)
 		}
-		return H05Field(FieldKey(a.X.Type(), a.Field), e.Term(a.X, f))
+		bt := e.Term(a.X, f)
+		if bt.Op == "fresh" {
+			// field of an object created by an enclosing activation (a parameter object / a method
+			// receiver holding the state of the operation): the value stored into it, if that is one value
+			// stored before this read
+			if al, ok := bt.Val.(*ssa.Alloc); ok && bt.Frame != nil {
+				if t := e.objField(al, bt.Frame, a.Field, ld, f); t != nil {
+					return t
+				}
+			}
+			return e.opaque(ld, f)
+		}
+		return H05Field(FieldKey(a.X.Type(), a.Field), bt)
 	case *ssa.IndexAddr:
 		if el := e.elemOf(a.X, a.Index, a.Block(), f); el != nil {
 			return el
@@ -786,6 +848,249 @@ func (e *H05) loadTerm(ld *ssa.UnOp, f *H05Frame) *H05Term {
 		return H05T("gload", Short(a.String()))
 	}
 	return H05T("deref", "", e.Term(ld.X, f))
+}
+
+// ---- parameter objects
+
+type h05objStore struct {
+	val ssa.Value
+	st  *ssa.Store
+	f   *H05Frame
+}
+
+type h05obj struct {
+	escaped bool
+	stores  map[int][]h05objStore
+}
+
+type h05objKey struct {
+	al *ssa.Alloc
+	f  *H05Frame
+}
+
+// objInfo follows the address of the struct object al (created in frame f0) through the activations
+// reachable from f0: field reads and writes, arguments of followed calls, single-assignment spills. Any
+// other use (stored, returned, converted, captured, handed to code that is not followed) makes it escaped.
+func (e *H05) objInfo(al *ssa.Alloc, f0 *H05Frame) *h05obj {
+	if e.objs == nil {
+		e.objs = map[h05objKey]*h05obj{}
+	}
+	k := h05objKey{al, f0}
+	if o, ok := e.objs[k]; ok {
+		return o
+	}
+	o := &h05obj{stores: map[int][]h05objStore{}}
+	e.objs[k] = o
+	if _, ok := al.Type().Underlying().(*types.Pointer).Elem().Underlying().(*types.Struct); !ok {
+		o.escaped = true
+		return o
+	}
+	type alias struct {
+		v ssa.Value
+		f *H05Frame
+	}
+	seen := map[alias]bool{}
+	work := []alias{{al, f0}}
+	for len(work) > 0 && !o.escaped {
+		a := work[len(work)-1]
+		work = work[:len(work)-1]
+		if seen[a] || a.v.Referrers() == nil {
+			continue
+		}
+		seen[a] = true
+		for _, ref := range *a.v.Referrers() {
+			switch r := ref.(type) {
+			case *ssa.DebugRef:
+			case *ssa.UnOp:
+				if r.Op != token.MUL {
+					o.escaped = true
+				}
+			case *ssa.FieldAddr:
+				if r.X != a.v {
+					o.escaped = true
+					break
+				}
+				for _, r2 := range *r.Referrers() {
+					switch x := r2.(type) {
+					case *ssa.Store:
+						if x.Addr != ssa.Value(r) {
+							o.escaped = true
+						} else {
+							o.stores[r.Field] = append(o.stores[r.Field], h05objStore{x.Val, x, a.f})
+						}
+					case *ssa.UnOp:
+						if x.Op != token.MUL {
+							o.escaped = true
+						}
+					case *ssa.DebugRef:
+					default:
+						// address of a field taken (nested struct, &o.f handed on): not followed
+						o.escaped = true
+					}
+				}
+			case *ssa.Store:
+				sp, ok := r.Addr.(*ssa.Alloc)
+				if r.Val != a.v || !ok || !e.trackable(sp) || UniqueStore(sp) != a.v {
+					o.escaped = true
+					break
+				}
+				for _, r2 := range *sp.Referrers() {
+					if ld, ok := r2.(*ssa.UnOp); ok && ld.Op == token.MUL {
+						work = append(work, alias{ld, a.f})
+					}
+				}
+			case ssa.CallInstruction:
+				cc := r.Common()
+				if cc.Value == a.v {
+					o.escaped = true
+					break
+				}
+				ch := e.Child(a.f, r)
+				if ch == nil {
+					o.escaped = true
+					break
+				}
+				for i, arg := range cc.Args {
+					if arg == a.v {
+						if i >= len(ch.Fn.Params) {
+							o.escaped = true
+							break
+						}
+						work = append(work, alias{ch.Fn.Params[i], ch})
+					}
+				}
+			default:
+				o.escaped = true
+			}
+		}
+	}
+	return o
+}
+
+// objField is the term of field idx of the object al (created in frame f0) as read by `at` in frame f:
+// the single value stored into it, provided the store is executed before the read; nil if unknown.
+func (e *H05) objField(al *ssa.Alloc, f0 *H05Frame, idx int, at ssa.Instruction, f *H05Frame) *H05Term {
+	o := e.objInfo(al, f0)
+	if o.escaped {
+		return nil
+	}
+	ss := o.stores[idx]
+	if len(ss) != 1 {
+		return nil
+	}
+	if !e.happensBefore(ss[0].st, ss[0].f, at, f) {
+		return nil
+	}
+	return e.Term(ss[0].val, ss[0].f)
+}
+
+// happensBefore: instruction a of activation fa has been executed whenever instruction b of activation
+// fb executes (both lifted to their lowest common activation; a helper that holds a must execute it on
+// every return).
+func (e *H05) happensBefore(a ssa.Instruction, fa *H05Frame, b ssa.Instruction, fb *H05Frame) bool {
+	anc := map[*H05Frame]bool{}
+	for g := fa; g != nil; g = g.Parent {
+		anc[g] = true
+	}
+	lca := fb
+	for lca != nil && !anc[lca] {
+		lca = lca.Parent
+	}
+	if lca == nil {
+		return false
+	}
+	// lift b
+	for g := fb; g != lca; g = g.Parent {
+		ci, ok := g.Call.(ssa.Instruction)
+		if !ok {
+			return false
+		}
+		b = ci
+	}
+	// lift a: it must be executed on every return of the helpers it is nested in
+	for g := fa; g != lca; g = g.Parent {
+		if _, isCall := g.Call.(*ssa.Call); !isCall {
+			return false
+		}
+		for _, r := range Returns(g.Fn) {
+			if r.Block().Comment == "recover" {
+				continue
+			}
+			if !Dominates(a, r) {
+				return false
+			}
+		}
+		a = g.Call.(ssa.Instruction)
+	}
+	return a != b && Dominates(a, b)
+}
+
+func (e *H05) accFor(f *H05Frame) H05Accept {
+	if f == e.phiAccF {
+		return e.phiAcc
+	}
+	return nil
+}
+
+// feasibleStore (only while TermAt runs): the local al, read by ld, holds one of several stored values;
+// those whose store cannot be followed by the point of use (path-sensitively) are discarded, as is "not
+// yet assigned" when the point of use cannot be reached around all the stores.
+func (e *H05) feasibleStore(al *ssa.Alloc, ld *ssa.UnOp, f *H05Frame) *H05Term {
+	at := e.phiAt[f]
+	if at == nil || at.Parent() != al.Parent() {
+		return nil
+	}
+	vals, ok := e.ReachingStores(al, ld)
+	if !ok || len(vals) < 2 {
+		return nil
+	}
+	stores := map[ssa.Value][]*ssa.Store{}
+	blocks := map[*ssa.BasicBlock]bool{}
+	for _, ref := range *al.Referrers() {
+		if st, ok := ref.(*ssa.Store); ok && st.Addr == ssa.Value(al) {
+			stores[st.Val] = append(stores[st.Val], st)
+			if ld, ok := st.Val.(*ssa.UnOp); ok && ld.Op == token.MUL && ld.X == ssa.Value(al) {
+				continue // `return x, err` of a function with named results: x is stored back into itself
+			}
+			blocks[st.Block()] = true
+		}
+	}
+	var first *H05Term
+	for _, v := range vals {
+		if v == nil {
+			// the zero value: reach the point of use from the declaration without passing a store
+			saved := e.avoid
+			e.avoid = blocks
+			reach, _ := e.ReachUnder(al, at, nil, e.accFor(f))
+			e.avoid = saved
+			if blocks[al.Block()] || blocks[at.Block()] {
+				reach = true
+			}
+			if reach {
+				return nil
+			}
+			continue
+		}
+		feasible := false
+		for _, st := range stores[v] {
+			if reach, _ := e.ReachUnder(st, at, nil, e.accFor(f)); reach {
+				feasible = true
+			}
+		}
+		if !feasible {
+			continue
+		}
+		t := e.Term(v, f)
+		if first == nil {
+			first = t
+		} else if first.Key() != t.Key() {
+			return nil
+		}
+	}
+	if first == nil || first.Op == "opaque" {
+		return nil
+	}
+	return first
 }
 
 // h05FieldOf selects a field of a struct term: the component of a literal, else a field read.
@@ -841,6 +1146,9 @@ type H05Range struct {
 	Loop *Loop
 	Coll ssa.Value // the slice/array/map/string ranged over
 	Idx  ssa.Value // the value used as element index inside the body (nil for map/string ranges)
+	// Test is the block whose branch ends the loop by exhaustion (the header, or a later block of a compound
+	// condition `for i := 0; err == nil && i < len(coll); i++`). Leaving the loop anywhere else is an early exit.
+	Test *ssa.BasicBlock
 }
 
 // RangeOf recognises `for i, x := range coll`, `for i := range coll`, `for i := 0; i < len(coll); i++`
@@ -849,11 +1157,43 @@ func (e *H05) RangeOf(l *Loop) *H05Range {
 	for _, in := range l.Header.Instrs {
 		if nx, ok := in.(*ssa.Next); ok {
 			if r, ok := nx.Iter.(*ssa.Range); ok {
-				return &H05Range{Loop: l, Coll: r.X}
+				return &H05Range{Loop: l, Coll: r.X, Test: l.Header}
 			}
 		}
 	}
-	iff, ok := l.Header.Instrs[len(l.Header.Instrs)-1].(*ssa.If)
+	if r := e.rangeTestedIn(l, l.Header); r != nil {
+		return r
+	}
+	// compound loop condition: the bound test sits in a later block that every iteration passes
+	var blocks []*ssa.BasicBlock
+	for b := range l.Body {
+		if b != l.Header {
+			blocks = append(blocks, b)
+		}
+	}
+	sort.Slice(blocks, func(i, j int) bool { return blocks[i].Index < blocks[j].Index })
+	for _, b := range blocks {
+		all := true
+		for _, la := range l.Latches {
+			all = all && (b == la || b.Dominates(la))
+		}
+		if in := InnermostLoop(b.Parent(), b); !all || in == nil || in.Header != l.Header {
+			continue
+		}
+		if r := e.rangeTestedIn(l, b); r != nil {
+			return r
+		}
+	}
+	return nil
+}
+
+// rangeTestedIn: block tb of loop l ends with the test `idx < len(coll)` of an index that counts up from 0
+// in steps of one (a phi of the loop header).
+func (e *H05) rangeTestedIn(l *Loop, tb *ssa.BasicBlock) *H05Range {
+	if len(tb.Instrs) == 0 || len(tb.Succs) != 2 {
+		return nil
+	}
+	iff, ok := tb.Instrs[len(tb.Instrs)-1].(*ssa.If)
 	if !ok {
 		return nil
 	}
@@ -876,7 +1216,7 @@ func (e *H05) RangeOf(l *Loop) *H05Range {
 		return nil
 	}
 	// the true edge must stay in the loop, the false edge must leave it
-	if !l.Body[l.Header.Succs[0]] || l.Body[l.Header.Succs[1]] {
+	if !l.Body[tb.Succs[0]] || l.Body[tb.Succs[1]] {
 		return nil
 	}
 	ln, ok := e.Resolve(bound).(*ssa.Call)
@@ -923,7 +1263,7 @@ func (e *H05) RangeOf(l *Loop) *H05Range {
 			}
 		}
 	}
-	return &H05Range{Loop: l, Coll: coll, Idx: idx}
+	return &H05Range{Loop: l, Coll: coll, Idx: idx, Test: tb}
 }
 
 // elemOf: coll[idx] read in block b is the element visited by a full range loop over coll.
@@ -1171,6 +1511,7 @@ func (e *H05) nonNilResult(fn *ssa.Function) bool {
 type h05eval struct {
 	e         *H05
 	env       H05Env
+	path      h05path // values known along the path being walked (may be nil)
 	imprecise bool
 }
 
@@ -1183,10 +1524,16 @@ func (ev *h05eval) eval(v ssa.Value, b, pred *ssa.BasicBlock, d int) (abs H05Abs
 	if a, ok := ev.env[v]; ok {
 		return a, true
 	}
+	if pv, ok := ev.path[v]; ok {
+		return pv.a, pv.t
+	}
 	rv := ev.e.Resolve(v)
 	if rv != v {
 		if a, ok := ev.env[rv]; ok {
 			return a, true
+		}
+		if pv, ok := ev.path[rv]; ok {
+			return pv.a, pv.t
 		}
 	}
 	switch x := rv.(type) {
@@ -1268,9 +1615,20 @@ func (ev *h05eval) eval(v ssa.Value, b, pred *ssa.BasicBlock, d int) (abs H05Abs
 			}
 		}
 		return first, touched
+	case *ssa.Extract:
+		if c, ok := x.Tuple.(*ssa.Call); ok {
+			if a, t, ok := ev.throughCall(c, x.Index, b, pred, d); ok {
+				return a, t
+			}
+		}
 	case *ssa.Call:
 		if !x.Call.IsInvoke() && ev.e.nonNilResult(x.Call.StaticCallee()) {
 			return H05NonNilAbs, false
+		}
+		if x.Call.Signature().Results().Len() == 1 {
+			if a, t, ok := ev.throughCall(x, 0, b, pred, d); ok {
+				return a, t
+			}
 		}
 		for _, a := range x.Call.Args {
 			if _, ok := ev.env[a]; ok {
@@ -1286,6 +1644,59 @@ func (ev *h05eval) eval(v ssa.Value, b, pred *ssa.BasicBlock, d int) (abs H05Abs
 		}
 	}
 	return H05Abs{}, false
+}
+
+// throughCall: result idx of a call to a followable helper or function literal that hands on one of its
+// parameters, a constant or a freshly built error on every return (`fail(err)`, `wrap(err)`) has the
+// abstract value of that.
+func (ev *h05eval) throughCall(c *ssa.Call, idx int, b, pred *ssa.BasicBlock, d int) (H05Abs, bool, bool) {
+	callee := c.Call.StaticCallee()
+	if c.Call.IsInvoke() || callee == nil || callee.Blocks == nil || d > 8 || !ev.e.Follow(callee) || ev.e.Anchors[FuncName(callee)] {
+		return H05Abs{}, false, false
+	}
+	var out H05Abs
+	touched, n := false, 0
+	for _, r := range Returns(callee) {
+		if r.Block().Comment == "recover" || idx >= len(r.Results) {
+			continue
+		}
+		var a H05Abs
+		t := false
+		switch res := Unwrap(r.Results[idx]).(type) {
+		case *ssa.Parameter:
+			pi := -1
+			for i, p := range callee.Params {
+				if p == res {
+					pi = i
+				}
+			}
+			if pi < 0 || pi >= len(c.Call.Args) {
+				return H05Abs{}, false, false
+			}
+			a, t = ev.eval(c.Call.Args[pi], b, pred, d+1)
+		case *ssa.Const:
+			a, _ = ev.eval(res, nil, nil, d+1)
+		case *ssa.Call:
+			if res.Call.IsInvoke() || !ev.e.nonNilResult(res.Call.StaticCallee()) {
+				return H05Abs{}, false, false
+			}
+			a = H05NonNilAbs
+		default:
+			return H05Abs{}, false, false
+		}
+		if a.Kind == H05Unknown {
+			return H05Abs{}, t, false
+		}
+		if n > 0 && !h05AbsEqual(out, a) {
+			return H05Abs{}, touched || t, false
+		}
+		out, touched = a, touched || t
+		n++
+	}
+	if n == 0 {
+		return H05Abs{}, false, false
+	}
+	return out, touched, true
 }
 
 func h05AbsEqual(a, b H05Abs) bool {
@@ -1408,65 +1819,32 @@ func (e *H05) assume(cond ssa.Value, truth bool, env H05Env, d int) {
 type H05Accept func(pred *ssa.BasicBlock, env H05Env) bool
 
 // ReachUnder reports whether control can flow from just after instruction from to sink when every
-// branch whose condition is decided by env takes only the decided successor (all others take both);
-// phis of a branching block are decided by the edge the block was entered from; the block of from is
-// not re-entered (a second execution of from would produce a new value). imprecise is set when a
-// condition that involves an env-known value could not be decided.
+// branch whose condition is decided by env takes only the decided successor (all others take both).
+// The walk is path-sensitive: along each path it remembers the abstract values of phis (decided by the
+// edge the block was entered from), of trackable locals kept in memory (stores and loads in program
+// order) and what the branches taken imply (`err == nil` taken false: err is non-nil), so an error
+// accumulated in a variable and tested later, a named flag, a single-exit function are followed the
+// same way as an early return. The block of from is not re-entered (a second execution of from would
+// produce a new value). imprecise is set when a condition that involves an env-known value could not
+// be decided (or the walk was cut off).
 func (e *H05) ReachUnder(from, sink ssa.Instruction, env H05Env, acc H05Accept) (reach, imprecise bool) {
 	if from.Parent() != sink.Parent() {
 		return true, true
 	}
-	ev := &h05eval{e: e, env: env}
-	type state struct{ b, pred *ssa.BasicBlock }
-	arrive := func(pred *ssa.BasicBlock) bool { return acc == nil || acc(pred, env) }
-	if from.Block() == sink.Block() && index(from) < index(sink) {
-		if arrive(nil) {
+	w := e.newWalker(sink, env, acc)
+	w.fromB = from.Block()
+	path := w.initialPath(from)
+	// the rest of the starting block
+	fi := index(from)
+	if from.Block() == sink.Block() && fi < index(sink) {
+		p := w.scan(from.Block(), path, fi+1, index(sink))
+		if w.arrive(nil, p) {
 			return true, false
 		}
 	}
-	next := func(b, pred *ssa.BasicBlock) []*ssa.BasicBlock {
-		if len(b.Instrs) == 0 {
-			return b.Succs
-		}
-		iff, ok := b.Instrs[len(b.Instrs)-1].(*ssa.If)
-		if !ok {
-			return b.Succs
-		}
-		a, _ := ev.eval(iff.Cond, b, pred, 0)
-		if a.Kind == H05Const && a.K.Kind() == constant.Bool {
-			if constant.BoolVal(a.K) {
-				return b.Succs[:1]
-			}
-			return b.Succs[1:2]
-		}
-		return b.Succs
-	}
-	seen := map[state]bool{}
-	var work []state
-	for _, s := range next(from.Block(), nil) {
-		work = append(work, state{s, from.Block()})
-	}
-	for len(work) > 0 {
-		st := work[len(work)-1]
-		work = work[:len(work)-1]
-		if seen[st] {
-			continue
-		}
-		seen[st] = true
-		if st.b == sink.Block() {
-			if arrive(st.pred) {
-				return true, ev.imprecise
-			}
-			// the sink terminates its block or the walk may go on behind it
-		}
-		if st.b == from.Block() || e.avoid[st.b] {
-			continue
-		}
-		for _, s := range next(st.b, st.pred) {
-			work = append(work, state{s, st.b})
-		}
-	}
-	return false, ev.imprecise
+	path = w.scan(from.Block(), path, fi+1, len(from.Block().Instrs))
+	w.branch(from.Block(), nil, path)
+	return w.run()
 }
 
 // ReachUnderAvoiding is ReachUnder on the graph without the given block.
@@ -1478,38 +1856,344 @@ func (e *H05) ReachUnderAvoiding(from, sink ssa.Instruction, env H05Env, acc H05
 
 // ReachFromEdge is ReachUnder starting with the edge pred→b already taken.
 func (e *H05) ReachFromEdge(pred, b *ssa.BasicBlock, sink ssa.Instruction, env H05Env, acc H05Accept) bool {
-	ev := &h05eval{e: e, env: env}
-	type state struct{ b, pred *ssa.BasicBlock }
-	seen := map[state]bool{}
-	work := []state{{b, pred}}
-	for len(work) > 0 {
-		st := work[len(work)-1]
-		work = work[:len(work)-1]
-		if seen[st] {
-			continue
-		}
-		seen[st] = true
-		if st.b == sink.Block() && (acc == nil || acc(st.pred, env)) {
-			return true
-		}
-		succs := st.b.Succs
-		if n := len(st.b.Instrs); n > 0 {
-			if iff, ok := st.b.Instrs[n-1].(*ssa.If); ok {
-				a, _ := ev.eval(iff.Cond, st.b, st.pred, 0)
-				if a.Kind == H05Const && a.K.Kind() == constant.Bool {
-					if constant.BoolVal(a.K) {
-						succs = succs[:1]
-					} else {
-						succs = succs[1:2]
-					}
+	w := e.newWalker(sink, env, acc)
+	path := h05path{}
+	if n := len(pred.Instrs); n > 0 {
+		path = w.initialPath(pred.Instrs[n-1])
+		// what the branches that confine pred imply
+		for v, a := range e.Assumptions(pred) {
+			if _, ok := path[v]; !ok {
+				if _, isC := v.(*ssa.Const); !isC {
+					path[v] = h05pv{a, false}
 				}
 			}
 		}
-		for _, s := range succs {
-			work = append(work, state{s, st.b})
+		if iff, ok := pred.Instrs[n-1].(*ssa.If); ok && len(pred.Succs) == 2 && pred.Succs[0] != pred.Succs[1] {
+			path = w.refine(path, iff.Cond, pred.Succs[0] == b)
 		}
 	}
-	return false
+	w.push(b, pred, path)
+	reach, _ := w.run()
+	return reach
+}
+
+// h05pv is a path-local abstract value (t: derived from an env-known value).
+type h05pv struct {
+	a H05Abs
+	t bool
+}
+
+type h05path map[ssa.Value]h05pv
+
+type h05wstate struct {
+	b, pred *ssa.BasicBlock
+	path    h05path
+}
+
+type h05walker struct {
+	e     *H05
+	ev    *h05eval
+	env   H05Env
+	acc   H05Accept
+	sink  ssa.Instruction
+	fromB *ssa.BasicBlock
+	ids   map[ssa.Value]int
+	seen  map[string]bool
+	work  []h05wstate
+	cut   bool
+}
+
+const h05MaxStates = 40000
+
+func (e *H05) newWalker(sink ssa.Instruction, env H05Env, acc H05Accept) *h05walker {
+	return &h05walker{e: e, ev: &h05eval{e: e, env: env}, env: env, acc: acc, sink: sink,
+		ids: map[ssa.Value]int{}, seen: map[string]bool{}}
+}
+
+func (w *h05walker) id(v ssa.Value) int {
+	n, ok := w.ids[v]
+	if !ok {
+		n = len(w.ids) + 1
+		w.ids[v] = n
+	}
+	return n
+}
+
+func (w *h05walker) key(b, pred *ssa.BasicBlock, p h05path) string {
+	ks := make([]string, 0, len(p))
+	for v, pv := range p {
+		s := ""
+		switch pv.a.Kind {
+		case H05Const:
+			s = "c" + pv.a.K.ExactString()
+		case H05Nil:
+			s = "n"
+		case H05NonNil:
+			s = "N"
+		}
+		ks = append(ks, fmt.Sprintf("%d=%s", w.id(v), s))
+	}
+	sort.Strings(ks)
+	pi := -1
+	if pred != nil {
+		pi = pred.Index
+	}
+	return fmt.Sprintf("%d<%d|%s", b.Index, pi, strings.Join(ks, ","))
+}
+
+func (w *h05walker) push(b, pred *ssa.BasicBlock, p h05path) {
+	w.work = append(w.work, h05wstate{b, pred, p})
+}
+
+// arrive: an arrival at the sink's block through pred with the path values p counts.
+func (w *h05walker) arrive(pred *ssa.BasicBlock, p h05path) bool {
+	if w.acc == nil {
+		return true
+	}
+	full := H05Env{}
+	for v, pv := range p {
+		full[v] = pv.a
+	}
+	for v, a := range w.env {
+		full[v] = a
+	}
+	return w.acc(pred, full)
+}
+
+func h05ZeroAbs(t types.Type) H05Abs {
+	switch u := t.Underlying().(type) {
+	case *types.Pointer, *types.Interface, *types.Map, *types.Slice, *types.Chan, *types.Signature:
+		return H05NilAbs
+	case *types.Basic:
+		switch {
+		case u.Info()&types.IsBoolean != 0:
+			return H05ConstAbs(constant.MakeBool(false))
+		case u.Info()&types.IsInteger != 0:
+			return H05ConstAbs(constant.MakeInt64(0))
+		case u.Info()&types.IsString != 0:
+			return H05ConstAbs(constant.MakeString(""))
+		}
+	}
+	return H05Abs{}
+}
+
+// initialPath: what the trackable locals of the function hold when `at` executes (where that is one value).
+func (w *h05walker) initialPath(at ssa.Instruction) h05path {
+	p := h05path{}
+	fn := at.Parent()
+	if len(fn.Blocks) == 0 {
+		return p
+	}
+	for _, b := range fn.Blocks {
+		for _, in := range b.Instrs {
+			al, ok := in.(*ssa.Alloc)
+			if !ok || !w.e.trackable(al) {
+				continue
+			}
+			vals, ok := w.e.ReachingStores(al, at)
+			if !ok || len(vals) != 1 {
+				continue
+			}
+			if vals[0] == nil {
+				if a := h05ZeroAbs(al.Type().Underlying().(*types.Pointer).Elem()); a.Kind != H05Unknown {
+					p[al] = h05pv{a, false}
+				}
+				continue
+			}
+			w.ev.path = nil
+			if a, t := w.ev.eval(vals[0], nil, nil, 0); a.Kind != H05Unknown {
+				p[al] = h05pv{a, t}
+			}
+		}
+	}
+	return p
+}
+
+func (p h05path) with(v ssa.Value, pv h05pv, known bool) h05path {
+	if old, ok := p[v]; ok == known && (!known || (h05AbsEqual(old.a, pv.a) && old.t == pv.t)) {
+		return p
+	}
+	q := make(h05path, len(p)+1)
+	for k, x := range p {
+		q[k] = x
+	}
+	if known {
+		q[v] = pv
+	} else {
+		delete(q, v)
+	}
+	return q
+}
+
+// scan executes the stores to and loads from trackable locals of b.Instrs[lo:hi] on the path values.
+func (w *h05walker) scan(b *ssa.BasicBlock, p h05path, lo, hi int) h05path {
+	for i := lo; i < hi && i < len(b.Instrs); i++ {
+		switch x := b.Instrs[i].(type) {
+		case *ssa.Alloc:
+			if w.e.trackable(x) {
+				a := h05ZeroAbs(x.Type().Underlying().(*types.Pointer).Elem())
+				p = p.with(x, h05pv{a, false}, a.Kind != H05Unknown)
+			}
+		case *ssa.Store:
+			al, ok := x.Addr.(*ssa.Alloc)
+			if !ok || al.Parent() != b.Parent() || !w.e.trackable(al) {
+				continue
+			}
+			w.ev.path = p
+			a, t := w.ev.eval(x.Val, nil, nil, 0)
+			p = p.with(al, h05pv{a, t}, a.Kind != H05Unknown)
+		case *ssa.UnOp:
+			if x.Op != token.MUL {
+				continue
+			}
+			al, ok := x.X.(*ssa.Alloc)
+			if !ok || al.Parent() != b.Parent() || !w.e.trackable(al) {
+				continue
+			}
+			pv, known := p[al]
+			p = p.with(x, pv, known)
+		}
+	}
+	return p
+}
+
+// enter computes the path values after taking the edge pred→b: phis by their edge, values defined in b
+// forgotten (they are about to be recomputed), values whose definition does not dominate b dropped (they
+// cannot be used before being redefined).
+func (w *h05walker) enter(b, pred *ssa.BasicBlock, p h05path) h05path {
+	type upd struct {
+		phi *ssa.Phi
+		pv  h05pv
+		ok  bool
+	}
+	var ups []upd
+	edge := -1
+	for i, q := range b.Preds {
+		if q == pred {
+			edge = i
+		}
+	}
+	w.ev.path = p
+	for _, in := range b.Instrs {
+		phi, ok := in.(*ssa.Phi)
+		if !ok {
+			break
+		}
+		if edge < 0 || edge >= len(phi.Edges) {
+			ups = append(ups, upd{phi: phi})
+			continue
+		}
+		if _, fixed := w.env[phi]; fixed {
+			continue
+		}
+		a, t := w.ev.eval(phi.Edges[edge], nil, nil, 0)
+		ups = append(ups, upd{phi, h05pv{a, t}, a.Kind != H05Unknown})
+	}
+	q := make(h05path, len(p))
+	for v, pv := range p {
+		if in, ok := v.(ssa.Instruction); ok && in.Block() != nil {
+			if in.Block() == b {
+				if _, isAlloc := v.(*ssa.Alloc); !isAlloc {
+					continue
+				}
+			} else if in.Parent() == b.Parent() && !in.Block().Dominates(b) {
+				continue
+			}
+		}
+		q[v] = pv
+	}
+	for _, u := range ups {
+		if u.ok {
+			q[u.phi] = u.pv
+		} else {
+			delete(q, u.phi)
+		}
+	}
+	return q
+}
+
+// refine adds what taking the branch on cond with the given outcome implies.
+func (w *h05walker) refine(p h05path, cond ssa.Value, truth bool) h05path {
+	tmp := H05Env{}
+	w.e.assume(cond, truth, tmp, 0)
+	var q h05path
+	for v, a := range tmp {
+		if _, ok := w.env[v]; ok {
+			continue
+		}
+		if _, ok := p[v]; ok {
+			continue
+		}
+		if _, isC := v.(*ssa.Const); isC {
+			continue
+		}
+		if q == nil {
+			q = make(h05path, len(p)+len(tmp))
+			for k, x := range p {
+				q[k] = x
+			}
+		}
+		q[v] = h05pv{a, false}
+	}
+	if q == nil {
+		return p
+	}
+	return q
+}
+
+// branch pushes the successors of b that can be taken with the path values p.
+func (w *h05walker) branch(b, pred *ssa.BasicBlock, p h05path) {
+	if n := len(b.Instrs); n > 0 {
+		if iff, ok := b.Instrs[n-1].(*ssa.If); ok && len(b.Succs) == 2 {
+			w.ev.path = p
+			a, _ := w.ev.eval(iff.Cond, b, pred, 0)
+			if a.Kind == H05Const && a.K.Kind() == constant.Bool {
+				if constant.BoolVal(a.K) {
+					w.push(b.Succs[0], b, p)
+				} else {
+					w.push(b.Succs[1], b, p)
+				}
+				return
+			}
+			if b.Succs[0] != b.Succs[1] {
+				w.push(b.Succs[0], b, w.refine(p, iff.Cond, true))
+				w.push(b.Succs[1], b, w.refine(p, iff.Cond, false))
+				return
+			}
+		}
+	}
+	for _, s := range b.Succs {
+		w.push(s, b, p)
+	}
+}
+
+func (w *h05walker) run() (reach, imprecise bool) {
+	for len(w.work) > 0 {
+		st := w.work[len(w.work)-1]
+		w.work = w.work[:len(w.work)-1]
+		p := w.enter(st.b, st.pred, st.path)
+		k := w.key(st.b, st.pred, p)
+		if w.seen[k] {
+			continue
+		}
+		if len(w.seen) > h05MaxStates {
+			return true, true
+		}
+		w.seen[k] = true
+		if st.b == w.sink.Block() {
+			q := w.scan(st.b, p, 0, index(w.sink))
+			if w.arrive(st.pred, q) {
+				return true, w.ev.imprecise
+			}
+			// the sink terminates its block or the walk may go on behind it
+		}
+		if st.b == w.fromB || w.e.avoid[st.b] {
+			continue
+		}
+		p = w.scan(st.b, p, 0, len(st.b.Instrs))
+		w.branch(st.b, st.pred, p)
+	}
+	return false, w.ev.imprecise
 }
 
 // ---------------------------------------------------------------------------------------------
@@ -1592,20 +2276,32 @@ func (e *H05) SuccessReturns(fn *ssa.Function, spec H05Spec) []*ssa.Return {
 	return out
 }
 
-// IterationEnd returns the site that stands for "an iteration of l completed" (the back edge is taken)
-// and the arrival filter that goes with it.
-func (e *H05) IterationEnd(l *Loop) (ssa.Instruction, H05Accept) {
-	site := l.Header.Instrs[0]
+// IterationEnd returns the site that stands for "the iteration of l for one element is over and the loop
+// goes on to the next element" — the first instruction of the body, entered from the block `test` that ends
+// the loop by exhaustion — and the arrival filter that goes with it. (Not simply "the back edge is taken":
+// a loop that records a failure in a variable and lets the loop condition end it takes the back edge too.)
+func (e *H05) IterationEnd(l *Loop, test *ssa.BasicBlock) (ssa.Instruction, H05Accept) {
+	if test == nil {
+		test = l.Header
+	}
+	site := test.Succs[0].Instrs[0]
 	e.iterSite[site] = l
-	return site, func(pred *ssa.BasicBlock, env H05Env) bool { return pred != nil && l.Body[pred] }
+	if e.iterTest == nil {
+		e.iterTest = map[ssa.Instruction]*ssa.BasicBlock{}
+	}
+	e.iterTest[site] = test
+	return site, func(pred *ssa.BasicBlock, env H05Env) bool { return pred == test }
 }
 
 // Dom reports whether a is executed on every path to site: plain dominance, or — for an iteration-end
-// site — on every path from the loop header to a back edge.
+// site — on every path from the start of an iteration to the start of the next one.
 func (e *H05) Dom(a, site ssa.Instruction, acc H05Accept) bool {
 	if l, ok := e.iterSite[site]; ok {
 		if a.Parent() != site.Parent() || !l.Body[a.Block()] {
 			return false
+		}
+		if a.Block() == site.Block() {
+			return true
 		}
 		if ok := func() bool {
 			for _, la := range l.Latches {
@@ -1617,9 +2313,9 @@ func (e *H05) Dom(a, site ssa.Instruction, acc H05Accept) bool {
 		}(); ok {
 			return true
 		}
-		// every feasible path from the header to a back edge passes a
-		from := l.Header.Instrs[0]
-		reach, _ := e.ReachUnderAvoiding(from, site, nil, func(pred *ssa.BasicBlock, env H05Env) bool { return pred != nil && l.Body[pred] }, a.Block())
+		// every feasible path from the start of an iteration to the next one passes a
+		test := e.iterTest[site]
+		reach, _ := e.ReachUnderAvoiding(site, site, nil, func(pred *ssa.BasicBlock, env H05Env) bool { return pred == test }, a.Block())
 		return !reach
 	}
 	if Dominates(a, site) {
@@ -1910,7 +2606,7 @@ func (q *H05EqQ) Direct(e *H05, site ssa.Instruction, f *H05Frame, acc H05Accept
 			if !ok || (bin.Op != token.EQL && bin.Op != token.NEQ) {
 				continue
 			}
-			x, y := e.Term(bin.X, f).Key(), e.Term(bin.Y, f).Key()
+			x, y := e.TermAt(bin.X, f, bin, f).Key(), e.TermAt(bin.Y, f, bin, f).Key()
 			if !(x == q.A.Key() && y == q.B.Key()) && !(x == q.B.Key() && y == q.A.Key()) {
 				continue
 			}
@@ -1969,12 +2665,12 @@ func (q *H05ForallQ) Direct(e *H05, site ssa.Instruction, f *H05Frame, acc H05Ac
 		inner := q.Inner(H05Elem(q.Coll))
 		ok := H05Verdict{Yes: true, Cand: true}
 		{
-			end, endAcc := e.IterationEnd(l)
+			end, endAcc := e.IterationEnd(l, r.Test)
 			v := e.Established(inner, end, f, endAcc, false)
 			if !v.Yes {
 				ok = v
 				if v.Cand {
-					ok.Why = "an iteration can reach the loop latch without passing the guard (" + v.Why + ")"
+					ok.Why = "an iteration can go on to the next element without passing the guard (" + v.Why + ")"
 				}
 			} else {
 				ok.Wit, ok.WitFrame = v.Wit, v.WitFrame
@@ -1984,7 +2680,7 @@ func (q *H05ForallQ) Direct(e *H05, site ssa.Instruction, f *H05Frame, acc H05Ac
 			best = h05Better(best, ok)
 			continue
 		}
-		if ex := e.earlyExit(l, site, acc); ex != nil {
+		if ex := e.earlyExit(l, r.Test, site, acc); ex != nil {
 			best = h05Better(best, H05Verdict{Cand: true, Why: "the loop can be left early (break) towards the sink before every element passed the guard"})
 			continue
 		}
@@ -2062,14 +2758,14 @@ func (e *H05) loopTouches(l *Loop, coll *H05Term, f *H05Frame) bool {
 
 // earlyExit returns a block of the loop other than the header with an edge out of the loop from which
 // site can be reached (in a way accepted by acc).
-func (e *H05) earlyExit(l *Loop, site ssa.Instruction, acc H05Accept) *ssa.BasicBlock {
+func (e *H05) earlyExit(l *Loop, test *ssa.BasicBlock, site ssa.Instruction, acc H05Accept) *ssa.BasicBlock {
 	var blocks []*ssa.BasicBlock
 	for b := range l.Body {
 		blocks = append(blocks, b)
 	}
 	sort.Slice(blocks, func(i, j int) bool { return blocks[i].Index < blocks[j].Index })
 	for _, b := range blocks {
-		if b == l.Header {
+		if b == test {
 			continue
 		}
 		for _, s := range b.Succs {
